@@ -54,6 +54,27 @@ def appended_ok(rep, rid, where, p, f, est_field):
     """the sub-filter appended on this path is one fresh BloomFilter built with the filter's own parameters"""
     news = [e for e in p.events if e.kind == "new" and e.cls == "BloomFilter"]
     apps = [e for e in p.events if e.kind == "call" and e.target is None and e.name == "append" and e.recv is not None and strip_epochs(e.recv) == BLOOMS]
+    if not news and len(apps) == 1:
+        # a recycled sub-filter: the one rolled off the front on this path, emptied (bit array re-allocated as zeros of its own
+        # length, count reset - on that very object) and appended again; all sub-filters share their parameters (C01 decides that)
+        obj = strip_epochs(apps[0].args[0])
+        popped = [e for e in p.events if e.kind == "call" and e.name == "pop" and e.recv is not None and strip_epochs(e.recv) == BLOOMS
+                  and [strip_epochs(a) for a in e.args] == [C(0)] and strip_epochs(e.result) == obj]
+        sets = {e.name: strip_epochs(e.value) for e in p.events if e.kind == "setfield" and strip_epochs(e.base) == obj}
+        arr = sets.get("_bloom")
+        own_len = [("f", obj, "bloom_length", 0), ("f", obj, "_bloom_length", 0)]
+        zeroed = arr is not None and arr[0] == "newb" and arr[1] == "array" and len(arr[3]) == 2 and arr[3][0] == C("B") and \
+            (arr[3][1] in [("call", ("g", "bytes"), (ln,), ()) for ln in own_len])
+        zeroed = zeroed or (arr is not None and arr[0] == "nary" and arr[1] == "*" and len(arr[2]) == 2 and any(x in own_len for x in arr[2]) and
+                            any(x[0] == "newb" and x[1] == "array" and len(x[3]) == 2 and x[3] == (C("B"), ("lst", (C(0),))) for x in arr[2]))
+        cleared = any(e.kind == "call" and e.name == "clear" and e.recv is not None and strip_epochs(e.recv) == obj for e in p.events)
+        if popped and ((zeroed and sets.get("_els_added") == C(0)) or cleared):
+            return True
+        if popped:
+            what = "its bit array is not re-allocated as zeros of its own length" if not zeroed else "its element count is not reset (on that very object)"
+            rep.bad(rid, where, "recycled sub-filter not emptied", f"the sub-filter rolled off the front is appended again as the newest one, but {what}: "
+                    "it starts its new life with stale contents, or never reports itself full again", apps[0].where())
+            return False
     if len(news) != 1 or len(apps) != 1 or apps[0].args[0] != news[0].obj:
         rep.bad(rid, where, "append shape", "growth does not append exactly one freshly built sub-filter at the end of the list", f.where())
         return False
